@@ -182,7 +182,15 @@ func (r *Route) TargetConfig(t *Target, addWeight bool) string {
 	if addWeight {
 		s += fmt.Sprintf(" weight %2.4f", t.Weight)
 	} else if t.FixedWeight > 0 {
-		s += fmt.Sprintf(" weight %.4f", t.FixedWeight)
+		w := fmt.Sprintf("%.4f", t.FixedWeight)
+		// four decimals write a weight below 0.00005 as '0.0000' which is
+		// read back as "no fixed weight": the target would get an equal
+		// share of the traffic instead of next to nothing. Such a weight is
+		// written with as many digits as it needs.
+		if w == "0.0000" {
+			w = strconv.FormatFloat(t.FixedWeight, 'f', -1, 64)
+		}
+		s += " weight " + w
 	}
 	if len(t.Tags) > 0 {
 		// the parser reads the tag list verbatim: it must not be escaped
